@@ -71,6 +71,9 @@ type ObsRec struct {
 	Value uint64 `json:"value"`
 }
 
+// SchedBlocked marks a schedule entry whose step ended with the thread blocked in a primitive.
+const SchedBlocked = 1 << 16
+
 type ConcRec struct {
 	Inputs   []NondetRec
 	Observed []ObsRec
@@ -473,8 +476,15 @@ func (m *Machine) schedule() {
 			t.started = true
 			go t.body()
 		}
+		nlog := len(m.schedLog)
 		t.resume <- struct{}{}
 		<-m.parked
+		if m.ex.Mode == "conc" && nlog > 0 && nlog == len(m.schedLog) && !t.done && t.waiting != nil {
+			// the step ended with the thread blocked inside a primitive (not at a
+			// scheduling point): the native schedule player needs to know, because a
+			// natively blocked thread resumes by itself when it is released
+			m.schedLog[nlog-1] |= SchedBlocked
+		}
 		if m.threads[0].done {
 			if m.endWhy == "" {
 				m.endWhy = "ok"
@@ -923,6 +933,9 @@ func (m *Machine) sampleConcordance() {
 		return
 	}
 	ex.nextSample = ex.Res.Paths*3 + 1 + ex.Seed%3
+	if ex.ConcN > 16 {
+		ex.nextSample = ex.Res.Paths + 1 + (ex.Res.Paths+ex.Seed)%7 // dense sampling (development)
+	}
 	if r := m.S.Check(); r != smt.Sat {
 		return
 	}
